@@ -1,4 +1,5 @@
 """C18 — custom strategies get validated inputs, correct targets, faithful accessors."""
+import gen
 import vlib
 
 ID = "C18"
@@ -29,7 +30,7 @@ def oracle(case, res):
 
 
 def extra(rng, tier):
-    n = 400 if tier == "quick" else 20000
+    n = gen.N(tier, 400, 20000)
     seed = rng.randint(1, 2 ** 31)
     out = vlib.run_sub(["custom", seed, n])
     fails, summary, hist = [], None, {}
